@@ -666,26 +666,28 @@ func (p *Policy) blockAccountDeferrable(ic *interop.Context, args []stackitem.It
 }
 
 func (p *Policy) BlockAccountInternalDeferrable(ic *interop.Context, hash util.Uint160, handleRes func(res bool)) {
-	i, blocked := p.isBlockedInternal(ic.DAO.GetROCache(p.ID).(*PolicyCache), hash)
+	_, blocked := p.isBlockedInternal(ic.DAO.GetROCache(p.ID).(*PolicyCache), hash)
 	if blocked {
 		handleRes(false)
 		return
 	}
 
 	continuation := func() {
+		// The position is taken here: revoking the votes calls the account's
+		// onNEP17Payment, which can change the list before we get here.
+		cache := ic.DAO.GetRWCache(p.ID).(*PolicyCache)
+		i, blocked := p.isBlockedInternal(cache, hash)
+		if blocked {
+			handleRes(false)
+			return
+		}
 		key := makeBlockedAccountKey(hash)
 		if ic.IsHardforkEnabled(config.HFFaun) {
 			ic.DAO.PutBigInt(p.ID, key, new(big.Int).SetUint64(ic.GetTime()))
 		} else {
 			ic.DAO.PutStorageItem(p.ID, key, state.StorageItem{})
 		}
-		cache := ic.DAO.GetRWCache(p.ID).(*PolicyCache)
-		if len(cache.blockedAccounts) == i {
-			cache.blockedAccounts = append(cache.blockedAccounts, hash)
-		} else {
-			cache.blockedAccounts = append(cache.blockedAccounts[:i+1], cache.blockedAccounts[i:]...)
-			cache.blockedAccounts[i] = hash
-		}
+		cache.blockedAccounts = slices.Insert(cache.blockedAccounts, i, hash)
 		p.candidatesEligibilityChanged(ic.DAO)
 		handleRes(true)
 	}
